@@ -341,8 +341,9 @@ class _XSLibrary:
 
     def _mergeNeutronEnergies(self, other):
         self.neutronEnergyUpperBounds = other.neutronEnergyUpperBounds
-        # neutron velocity changes, but just use the first one.
-        if not hasattr(self, "_neutronVelocity"):
+        # neutron velocity changes, but just use the first one (a library without
+        # one, e.g. a PMATRX merged before the ISOTXS, only leaves a None behind).
+        if getattr(self, "_neutronVelocity", None) is None:
             self.neutronVelocity = other.neutronVelocity
 
     def items(self):
